@@ -76,27 +76,28 @@ theorem witness_workerOf_minInt : workerOf locAbsFirst 3 (-9223372036854775808) 
 /-- `mux_coherent`: for every configuration, every kernel, both facades, every capacity and worker count,
 every operation sequence and every fault pattern: after each completed operation, whatever any worker's
 cache holds for a key is exactly what the store holds for it. -/
-theorem mux_coherent (cfg : Cfg) (loc : Loc) (lru : Bool) (cap workers : Nat) (ops : List (Op × List Bool)) :
+theorem mux_coherent (cfg : Cfg) (hd : DelOk cfg) (loc : Loc) (lru : Bool) (cap workers : Nat)
+    (ops : List (Op × List Bool)) :
     Coherent (final (step cfg loc) (State.init lru cap workers) ops) :=
-  coherent_of_inv (inv_final cfg loc ops _ (inv_init loc lru cap workers))
+  coherent_of_inv (inv_final cfg hd loc ops _ (inv_init loc lru cap workers))
 
 /-- the same, after every prefix (`final` of every prefix is coherent) -/
-theorem mux_coherent_prefix (cfg : Cfg) (loc : Loc) (lru : Bool) (cap workers : Nat)
+theorem mux_coherent_prefix (cfg : Cfg) (hd : DelOk cfg) (loc : Loc) (lru : Bool) (cap workers : Nat)
     (pre post : List (Op × List Bool)) :
     Coherent (final (step cfg loc) (State.init lru cap workers) pre) ∧
     Coherent (final (step cfg loc) (State.init lru cap workers) (pre ++ post)) :=
-  ⟨mux_coherent cfg loc lru cap workers pre, mux_coherent cfg loc lru cap workers (pre ++ post)⟩
+  ⟨mux_coherent cfg hd loc lru cap workers pre, mux_coherent cfg hd loc lru cap workers (pre ++ post)⟩
 
 /-- what `Get`/`Peek` of any worker returns is the store's value -/
-theorem mux_cached_value_is_stored (cfg : Cfg) (loc : Loc) (lru : Bool) (cap workers : Nat)
+theorem mux_cached_value_is_stored (cfg : Cfg) (hd : DelOk cfg) (loc : Loc) (lru : Bool) (cap workers : Nat)
     (ops : List (Op × List Bool)) (c : Cache) (k : Key) (v : Val)
     (hc : c ∈ (final (step cfg loc) (State.init lru cap workers) ops).caches) (hp : cPeek c k = some v) :
     sGet (final (step cfg loc) (State.init lru cap workers) ops).store k = some v :=
-  mux_coherent cfg loc lru cap workers ops c hc k v (sGet_mem hp)
+  mux_coherent cfg hd loc lru cap workers ops c hc k v (sGet_mem hp)
 
 -- non-vacuity: a run with a failing update in the middle leaves cache and store equal
 set_option maxRecDepth 8192 in
-example : (final (step ⟨.storeFirst⟩ locRemFirst) (State.init true 2 2)
+example : (final (step ⟨.storeFirst, .once⟩ locRemFirst) (State.init true 2 2)
     [(.add 1 5, []), (.upd 1 2, [true]), (.upd 1 2, []), (.utl 3 4, [false, true])]) =
     ⟨[(3, 4), (1, 7)], [⟨true, 2, []⟩, ⟨true, 2, [(1, 7)]⟩]⟩ := by decide
 
@@ -119,10 +120,10 @@ theorem step_panic_of_none (cfg : Cfg) (loc : Loc) (s : State) (inp : Op × List
   · simp only [h]
   · simp only [hw, hc]
 
-theorem hDelete_nil (cfg : Cfg) (c : Ctx) (k : Key) (h : (hDelete cfg c k).2 = .nil) :
+theorem hDelete_nil (cfg : Cfg) (hdo : DelOk cfg) (c : Ctx) (k : Key) (h : (hDelete cfg c k).2 = .nil) :
     cPeek (hDelete cfg c k).1.cache k = none := by
   unfold hDelete at h ⊢
-  cases hd : cfg.delOrder <;> simp only [hd] at h ⊢
+  rcases hdo with hd | hd <;> simp only [hd] at h ⊢
   · -- storeFirst
     generalize hcall : callDel c k = r at h ⊢
     obtain ⟨r, c1⟩ := r
@@ -137,21 +138,26 @@ theorem hDelete_nil (cfg : Cfg) (c : Ctx) (k : Key) (h : (hDelete cfg c k).2 = .
     | ok u =>
       simp only
       rw [(callDel_spec hcall).1]; exact cPeek_cDelete _ _
-  · -- unknown (treated as storeFirst by the model)
-    generalize hcall : callDel c k = r at h ⊢
-    obtain ⟨r, c1⟩ := r
-    cases r with
-    | error e => simp at h
-    | ok u => simp only; exact cPeek_cDelete _ _
+
+/-- `Proved` has teeth: with a handler that forgets `ca.Delete` (configuration `noDelete`) a successful delete leaves
+the cache holding a value the store no longer has — coherence and `mux_delete_uncaches` are false of it -/
+theorem witness_noDelete_incoherent :
+    let s := final (step ⟨.noDelete, .once⟩ locRemFirst) (State.init false 0 1) [(.add 1 5, []), (.del 1, [])]
+    s.store = [] ∧ s.caches = [⟨false, 0, [(1, 5)]⟩] := by decide
+
+theorem not_coherent_noDelete : ¬ (∀ ops, Coherent (final (step ⟨.noDelete, .once⟩ locRemFirst) (State.init false 0 1) ops)) := by
+  intro h
+  have := h [(.add 1 5, []), (.del 1, [])] ⟨false, 0, [(1, 5)]⟩ (by decide) 1 5 (by decide)
+  revert this; decide
 
 /-- `mux_delete_uncaches`: in every state reachable by operations, a delete that reports success leaves
 no cached entry for the key in any worker's cache -/
-theorem mux_delete_uncaches (cfg : Cfg) (loc : Loc) (lru : Bool) (cap workers : Nat)
+theorem mux_delete_uncaches (cfg : Cfg) (hd : DelOk cfg) (loc : Loc) (lru : Bool) (cap workers : Nat)
     (ops : List (Op × List Bool)) (k : Key) (f : List Bool)
     (hres : (step cfg loc (final (step cfg loc) (State.init lru cap workers) ops) (.del k, f)).2.res = .nil) :
     ∀ c ∈ (step cfg loc (final (step cfg loc) (State.init lru cap workers) ops) (.del k, f)).1.caches,
       cPeek c k = none := by
-  have hinv := inv_final cfg loc ops _ (inv_init loc lru cap workers)
+  have hinv := inv_final cfg hd loc ops _ (inv_init loc lru cap workers)
   generalize final (step cfg loc) (State.init lru cap workers) ops = s at hinv hres ⊢
   intro c hc
   rcases List.mem_iff_getElem?.1 hc with ⟨w', hw'⟩
@@ -173,7 +179,7 @@ theorem mux_delete_uncaches (cfg : Cfg) (loc : Loc) (lru : Bool) (cap workers : 
         have hlt : w' < s.caches.length := (List.getElem?_eq_some_iff.1 hca).1
         rw [List.getElem?_set_self hlt] at hw'
         cases hw'
-        exact hDelete_nil cfg _ k hres
+        exact hDelete_nil cfg hd _ k hres
       · have hne : w ≠ w' := fun e => hww e.symm
         rw [List.getElem?_set_ne hne] at hw'
         cases hp : cPeek c k with
@@ -202,7 +208,7 @@ theorem mux_add_dup_no_store_call (cfg : Cfg) (loc : Loc) (s : State) (k : Key) 
 
 -- non-vacuity: key 1 cached by worker 1 of 2, the add is rejected without a callback
 set_option maxRecDepth 8192 in
-example : step ⟨.storeFirst⟩ locRemFirst ⟨[(1, 5)], [⟨false, 0, []⟩, ⟨false, 0, [(1, 5)]⟩]⟩ (.add 1 9, [true]) =
+example : step ⟨.storeFirst, .once⟩ locRemFirst ⟨[(1, 5)], [⟨false, 0, []⟩, ⟨false, 0, [(1, 5)]⟩]⟩ (.add 1 9, [true]) =
     (⟨[(1, 5)], [⟨false, 0, []⟩, ⟨false, 0, [(1, 5)]⟩]⟩, ⟨.err .dup, []⟩) := by decide
 
 /-! ### one at a time, in acceptance order (per-worker FIFO + single consumer) -/
@@ -281,7 +287,19 @@ theorem qinv_step (cfg : Cfg) (loc : Loc) (q q' : QState) (a : QAct) (h : QInv l
               intro e; rw [e, hkw] at hw0; exact hww (Option.some.inj hw0)
             rw [List.filter_append, filter_single_ne hne, List.append_nil]
             exact hold
-  | process w0 =>
+  | start =>
+    simp only [qStep] at hs
+    split at hs
+    · cases hs; exact ⟨hlen, hmem, hfil⟩
+    · split at hs <;> cases hs <;> exact ⟨hlen, hmem, hfil⟩
+  | take w0 =>
+    simp only [qStep] at hs
+    split at hs
+    · split at hs
+      · cases hs; exact ⟨hlen, hmem, hfil⟩
+      · cases hs
+    · cases hs
+  | complete w0 =>
     simp only [qStep] at hs
     cases hl : q.pending[w0]? with
     | none => simp [hl] at hs
@@ -289,7 +307,13 @@ theorem qinv_step (cfg : Cfg) (loc : Loc) (q q' : QState) (a : QAct) (h : QInv l
       cases l with
       | nil => simp [hl] at hs
       | cons inp rest =>
-        simp only [hl, Option.some.injEq] at hs
+        cases hb : q.busy[w0]? with
+        | none => simp [hl, hb] at hs
+        | some b0 =>
+        cases b0 with
+        | zero => simp [hl, hb] at hs
+        | succ b =>
+        simp only [hl, hb, Option.some.injEq] at hs
         subst hs
         have hlt : w0 < q.pending.length := (List.getElem?_eq_some_iff.1 hl).1
         have hcl := step_caches_length cfg loc q.st inp
@@ -359,7 +383,19 @@ theorem mux_state_is_sequential_run (cfg : Cfg) (loc : Loc) (lru : Bool) (cap wo
       · split at hstep
         · cases hstep
         · cases hstep; exact ih
-    | process w =>
+    | start =>
+      simp only [qLTS, qStep] at hstep
+      split at hstep
+      · cases hstep; exact ih
+      · split at hstep <;> cases hstep <;> exact ih
+    | take w =>
+      simp only [qLTS, qStep] at hstep
+      split at hstep
+      · split at hstep
+        · cases hstep; exact ih
+        · cases hstep
+      · cases hstep
+    | complete w =>
       simp only [qLTS, qStep] at hstep
       split at hstep
       · cases hstep
@@ -368,9 +404,138 @@ theorem mux_state_is_sequential_run (cfg : Cfg) (loc : Loc) (lru : Bool) (cap wo
       · cases hstep
 
 /-- coherence under every schedule of callers and workers -/
-theorem mux_coherent_all_schedules (cfg : Cfg) (loc : Loc) (lru : Bool) (cap workers : Nat) (q : QState)
+theorem mux_coherent_all_schedules (cfg : Cfg) (hd : DelOk cfg) (loc : Loc) (lru : Bool) (cap workers : Nat) (q : QState)
     (hr : (qLTS cfg loc lru cap workers).Reach q) : Coherent q.st := by
   rw [mux_state_is_sequential_run cfg loc lru cap workers q hr]
-  exact mux_coherent cfg loc lru cap workers q.applied
+  exact mux_coherent cfg hd loc lru cap workers q.applied
+
+
+/-! ### one consumer per worker: handlers of one worker never run at the same time (audit follow-up) -/
+
+/-- bookkeeping of the consumers when `Start` is guarded -/
+def BInv (q : QState) : Prop :=
+  q.busy.length = q.pending.length ∧ q.consumers ≤ 1 ∧
+  ∀ (w b : Nat), q.busy[w]? = some b → b ≤ q.consumers ∧ ∀ l : List (Op × List Bool), q.pending[w]? = some l → b ≤ l.length
+
+theorem binv_init (lru : Bool) (cap workers : Nat) : BInv (qInit lru cap workers) := by
+  refine ⟨by simp [qInit], by simp [qInit], ?_⟩
+  intro w b hb
+  simp only [qInit, List.getElem?_replicate] at hb ⊢
+  split at hb
+  · cases hb; exact ⟨Nat.le_refl _, fun l _ => Nat.zero_le _⟩
+  · cases hb
+
+theorem binv_step (cfg : Cfg) (hg : cfg.startGuard = .once) (loc : Loc) (q q' : QState) (a : QAct) (h : BInv q)
+    (hs : qStep cfg loc q a = some q') : BInv q' := by
+  obtain ⟨hlen, hc, hb⟩ := h
+  cases a with
+  | start =>
+    simp only [qStep, hg, beq_self_eq_true, if_true] at hs
+    split at hs
+    · rename_i h0
+      have h0' : q.consumers = 0 := by simpa using h0
+      cases hs
+      refine ⟨hlen, by simp, fun w b hw => ?_⟩
+      have := hb w b hw
+      exact ⟨by simp only; omega, this.2⟩
+    · cases hs; exact ⟨hlen, hc, hb⟩
+  | enqueue inp =>
+    simp only [qStep] at hs
+    split at hs
+    · cases hs
+    · rename_i w0 _
+      split at hs
+      · cases hs
+      · rename_i l hl
+        cases hs
+        have hlt : w0 < q.pending.length := (List.getElem?_eq_some_iff.1 hl).1
+        refine ⟨by simpa using hlen, hc, fun w b hw => ?_⟩
+        refine ⟨(hb w b hw).1, fun l' hl' => ?_⟩
+        simp only at hl'
+        by_cases hww : w = w0
+        · subst hww
+          rw [List.getElem?_set_self hlt] at hl'
+          cases hl'
+          have := (hb w b hw).2 l hl
+          simp only [List.length_append, List.length_singleton]; omega
+        · rw [List.getElem?_set_ne (fun e => hww e.symm)] at hl'
+          exact (hb w b hw).2 l' hl'
+  | take w0 =>
+    simp only [qStep] at hs
+    split at hs
+    · rename_i l b0 hl hb0
+      split at hs
+      · rename_i hcond
+        simp only [Bool.and_eq_true, decide_eq_true_eq] at hcond
+        cases hs
+        have hlt : w0 < q.busy.length := (List.getElem?_eq_some_iff.1 hb0).1
+        refine ⟨by simpa using hlen, hc, fun w b hw => ?_⟩
+        simp only at hw
+        by_cases hww : w = w0
+        · subst hww
+          rw [List.getElem?_set_self hlt] at hw
+          simp only [Option.some.injEq] at hw
+          subst hw
+          refine ⟨by simp only; omega, fun l' hl' => ?_⟩
+          simp only at hl'
+          rw [hl] at hl'; cases hl'; omega
+        · rw [List.getElem?_set_ne (fun e => hww e.symm)] at hw
+          exact hb w b hw
+      · cases hs
+    · cases hs
+  | complete w0 =>
+    simp only [qStep] at hs
+    split at hs
+    · rename_i inp rest b0 hl hb0
+      cases hs
+      have hltb : w0 < q.busy.length := (List.getElem?_eq_some_iff.1 hb0).1
+      have hltp : w0 < q.pending.length := (List.getElem?_eq_some_iff.1 hl).1
+      refine ⟨by simpa using hlen, hc, fun w b hw => ?_⟩
+      simp only at hw
+      by_cases hww : w = w0
+      · subst hww
+        rw [List.getElem?_set_self hltb] at hw
+        simp only [Option.some.injEq] at hw
+        subst hw
+        have := hb w (b0 + 1) hb0
+        refine ⟨by simp only; omega, fun l' hl' => ?_⟩
+        simp only at hl'
+        rw [List.getElem?_set_self hltp] at hl'
+        cases hl'
+        have := this.2 _ hl
+        simp only [List.length_cons] at this; omega
+      · rw [List.getElem?_set_ne (fun e => hww e.symm)] at hw
+        refine ⟨(hb w b hw).1, fun l' hl' => ?_⟩
+        simp only at hl'
+        rw [List.getElem?_set_ne (fun e => hww e.symm)] at hl'
+        exact (hb w b hw).2 l' hl'
+    · cases hs
+
+/-- `mux_one_at_a_time`: with a guarded `Start`, under every schedule of Start calls, callers and consumers, at most
+one operation of a worker is being handled at any moment — in particular never two operations on the same key
+(same key ⇒ same worker) -/
+theorem mux_one_at_a_time (cfg : Cfg) (hg : cfg.startGuard = .once) (loc : Loc) (lru : Bool) (cap workers : Nat)
+    (q : QState) (hr : (qLTS cfg loc lru cap workers).Reach q) (w : Nat) : (inFlight q w).length ≤ 1 := by
+  have hb : BInv q := LTS.inv_of_step (qLTS cfg loc lru cap workers) BInv (binv_init lru cap workers)
+    (fun s a s' hi hs => binv_step cfg hg loc s s' a hi hs) q hr
+  unfold inFlight
+  cases hbw : q.busy[w]? with
+  | none => simp
+  | some b =>
+    have := (hb.2.2 w b hbw).1
+    have hc := hb.2.1
+    simp only [Option.getD_some, List.length_take]
+    omega
+
+/-- today's `Worker.Start` (no guard): after `Start(); Start()` two operations on the same key are handled at the
+same time -/
+theorem witness_start_twice_two_in_flight :
+    ((qLTS ⟨.storeFirst, .unguarded⟩ locRemFirst false 0 1).run (qInit false 0 1)
+      [.start, .start, .enqueue (.utr 7 1, []), .enqueue (.utr 7 1, []), .take 0, .take 0]).map (fun q => inFlight q 0) =
+    some [(.utr 7 1, []), (.utr 7 1, [])] := by decide
+
+/-- with the guard the second consumer does not exist: the second `take` is not enabled -/
+example : (qLTS ⟨.storeFirst, .once⟩ locRemFirst false 0 1).run (qInit false 0 1)
+      [.start, .start, .enqueue (.utr 7 1, []), .enqueue (.utr 7 1, []), .take 0, .take 0] = none := by decide
 
 end Nv.C15
